@@ -57,6 +57,11 @@ def match_finding(finding, condname, reason, args):
     return True
 
 
+# per-partition CPU budgets in the harnesses were calibrated on an idle machine; under load (other checks running,
+# SMT siblings busy) the same work costs up to ~2x the CPU time, so the calibrated figure is scaled
+BUDGET_SCALE = float(os.environ.get('VERIF_BUDGET_SCALE', '2.5'))
+
+
 def plan(prop, tier, only=None):
     jobs = []
     mods = harness_modules(prop)
@@ -77,7 +82,7 @@ def plan(prop, tier, only=None):
                 kw = dict(pins)
                 kw.update(part)
                 jobs.append({'mod': mn, 'cond': c.name, 'pins': kw,
-                             'budget': spec.get('budget', 60), 'doc': c.doc,
+                             'budget': int(spec.get('budget', 60) * BUDGET_SCALE), 'doc': c.doc,
                              'bounds': spec.get('bounds', ''), 'outside': spec.get('outside', '')})
     return mods, jobs
 
